@@ -666,3 +666,24 @@ pub fn map_shape(s: &Shape, f: &IMap) -> Shape {
     Shape { ag: map_ag(&s.ag, f), g: map_geom(&s.g, f), fam: s.fam }
 }
 
+/// coordinate-wise image of a geometry, rebuilt type by type: unlike geo's `map_coords` it keeps a Triangle's corner order (geo re-normalises a
+/// Triangle to counter-clockwise) - the harness must not depend on the function under test to prepare its inputs
+pub fn map_geom_g<A: geo::CoordNum, B: geo::CoordNum>(g: &Geometry<A>, f: &dyn Fn(Coord<A>) -> Coord<B>) -> Geometry<B> {
+    let lsm = |l: &LineString<A>| LineString::new(l.0.iter().map(|&c| f(c)).collect());
+    let pgm = |p: &Polygon<A>| Polygon::new(lsm(p.exterior()), p.interiors().iter().map(lsm).collect());
+    match g {
+        Geometry::Point(p) => Geometry::Point(Point(f(p.0))),
+        Geometry::Line(l) => Geometry::Line(Line::new(f(l.start), f(l.end))),
+        Geometry::LineString(l) => Geometry::LineString(lsm(l)),
+        Geometry::Polygon(p) => Geometry::Polygon(pgm(p)),
+        Geometry::MultiPoint(m) => Geometry::MultiPoint(MultiPoint(m.0.iter().map(|p| Point(f(p.0))).collect())),
+        Geometry::MultiLineString(m) => Geometry::MultiLineString(MultiLineString(m.0.iter().map(lsm).collect())),
+        Geometry::MultiPolygon(m) => Geometry::MultiPolygon(MultiPolygon(m.0.iter().map(pgm).collect())),
+        Geometry::Rect(r) => Geometry::Rect(Rect::new(f(r.min()), f(r.max()))),
+        Geometry::Triangle(t) => Geometry::Triangle(Triangle(f(t.0), f(t.1), f(t.2))),
+        Geometry::GeometryCollection(gc) => Geometry::GeometryCollection(GeometryCollection(gc.0.iter().map(|x| map_geom_g(x, f)).collect())),
+    }
+}
+pub fn map_geom_f(g: &Geometry<f64>, f: &dyn Fn(Coord<f64>) -> Coord<f64>) -> Geometry<f64> {
+    map_geom_g(g, f)
+}
